@@ -160,7 +160,7 @@ func runC15(c *fw.Ctx, idx int) fw.Result {
 			os.WriteFile(sp, []byte(sf.Text), 0644)
 			runB := func(args ...string) fw.BinResult {
 				res.Evals++
-				return fw.RunBin(c.Bin, append([]string{"sam", "toMultiAlign", "-s", sp}, args...), nil, nil, "", 60*time.Second)
+				return fw.RunBin(c.Bin, append([]string{"sam", "toMultiAlign", "-s", sp}, args...), nil, nil, "", 40*time.Second)
 			}
 			for k := 0; k < 6; k++ {
 				a := r.Range(0, L-1)
@@ -192,8 +192,12 @@ func runC15(c *fw.Ctx, idx int) fw.Result {
 				res.Count("legacy_flag_relations", 1)
 				res.Sig(fmt.Sprintf("legacy|%s|%v", shape, pad))
 				if rx.TimedOut || ry.TimedOut {
-					res.Inconclusive = append(res.Inconclusive, "binary watchdog fired")
-					continue
+					hung := rx
+					if ry.TimedOut {
+						hung = ry
+					}
+					binHang(&res, hung, "toMultiAlign window flags", nil, nil)
+					break
 				}
 				if rx.Exit != 0 || ry.Exit != 0 || string(rx.Stdout) != string(ry.Stdout) {
 					res.Fail("legacy-flags", fmt.Sprintf("%v (exit %d) and %v (exit %d) differ: %s", x, rx.Exit, y, ry.Exit, firstDiff(string(ry.Stdout), string(rx.Stdout))),
@@ -532,13 +536,17 @@ func runC15(c *fw.Ctx, idx int) fw.Result {
 		if idx%12 == 5 {
 			a2 = append(a2, "--msa", "stdin") // the documented default spelled out
 		}
-		r1 := fw.RunBin(c.Bin, a1, nil, nil, "", 60*time.Second)
-		r2 := fw.RunBin(c.Bin, a2, []byte(msaTxt), nil, "", 60*time.Second)
+		r1 := fw.RunBin(c.Bin, a1, nil, nil, "", 40*time.Second)
+		r2 := fw.RunBin(c.Bin, a2, []byte(msaTxt), nil, "", 40*time.Second)
 		res.Evals += 2
 		res.Count("stdin_relations", 1)
 		res.Sig(fmt.Sprintf("stdin|%s|%v", format, extra))
 		if r1.TimedOut || r2.TimedOut {
-			res.Inconclusive = append(res.Inconclusive, "binary watchdog fired")
+			hung := r1
+			if r2.TimedOut {
+				hung = r2
+			}
+			binHang(&res, hung, "variants stdin/file", nil, a2)
 		} else if r1.Exit != 0 || r2.Exit != 0 || string(r1.Stdout) != string(r2.Stdout) {
 			res.Fail("stdin-vs-file", fmt.Sprintf("file run (exit %d) and stdin run (exit %d) differ: %s", r1.Exit, r2.Exit, firstDiff(string(r1.Stdout), string(r2.Stdout))),
 				map[string]string{"msa.fasta": msaTxt, "annotation." + format: ac.annoTxt, "file.csv": string(r1.Stdout), "stdin.csv": string(r2.Stdout), "stderr_stdin.txt": string(r2.Stderr)}, a2)
